@@ -50,8 +50,44 @@ def spec_lzss_cases(ctx):
         lines.append(f"prim lzss {m} {'-' if hx in ('=', '-') else hx}"); want.append(dg)
     yield lines, dict(family="lzss.spec", want=want, nontrivial=True, sig="lzss.spec-%d" % ctx.seed)
 
+def spec_kwaj_cases(ctx):
+    """the KWAJ *specification* of C05_kwaj_plain_roundtrip (Lean `Kwaj.encodeKwaj`, run by the driver as `prim enckwaj`)
+    against the real kwajd: random specifications (both methods, all 16 combinations of optional parts, empty and
+    long blobs) -> spec bytes -> open() must report exactly the specified fields and extract() the data"""
+    import subprocess, tempfile
+    rng = ctx.rng
+    n = 48 if ctx.tier == "quick" else 1200
+    specs = []
+    rb = lambda k: bytes(rng.randrange(256) for _ in range(k))
+    for i in range(n):
+        combo = i % 16
+        length = rng.choice([0, 1, 5, 0xFFFFFFFF, rng.randrange(1 << 32)]) if combo & 1 else None
+        unk1 = rng.randrange(65536) if combo & 2 else None
+        unk2 = rb(rng.choice([0, 1, 2, 30])) if combo & 4 else None
+        extra = rb(rng.choice([0, 1, 17, 300])) if combo & 8 else None
+        data = rb(rng.choice([0, 1, 2, 100, 5000]))
+        specs.append((rng.randrange(2), length, unk1, unk2, extra, data))
+    hx = lambda b: "-" if b is None else ("=" if not b else b.hex())
+    nn = lambda v: "-" if v is None else str(v)
+    with tempfile.NamedTemporaryFile("w", suffix=".case", dir=C.BUILD, delete=False) as tf:
+        tf.write("\n".join(f"prim enckwaj {x} {nn(l)} {nn(u1)} {hx(u2)} {hx(ex)} {d.hex() or '='}" for x, l, u1, u2, ex, d in specs) + "\n"); tp = tf.name
+    try:
+        out = [l for l in subprocess.run([C.DRIVER, tp], capture_output=True, text=True).stdout.splitlines() if l.startswith("prim enckwaj")]
+    finally:
+        os.unlink(tp)
+    if len(out) != len(specs) or any("bad-args" in l for l in out):
+        C.log(f"C05: driver answered {len(out)} of {len(specs)} prim enckwaj requests"); return
+    for (x, l, u1, u2, ex, d), line in zip(specs, out):
+        f = line.split(" ")[2]
+        off = 14 + (4 if l is not None else 0) + (2 if u1 is not None else 0) + (2 + len(u2) if u2 is not None else 0) + (2 + len(ex) if ex is not None else 0)
+        flags = (1 if l is not None else 0) | (2 if u1 is not None else 0) | (4 if u2 is not None else 0) | (0x20 if ex is not None else 0)
+        yield [f"file f.kwj {f}", "new kwaj", "open i0 f.kwj", "extract i0 h0 - out", "close i0 h0", "destroy i0"], \
+              dict(family="kwaj.spec", expect=digest(d), hdr=dict(comp=x, dataoff=off, length=l or 0, flags="0x%x" % flags, extra=ex, name=None),
+                   nontrivial=True, plan=dict(method=x, parts=flags))
+
 def generate(ctx):
     yield from spec_lzss_cases(ctx)
+    yield from spec_kwaj_cases(ctx)
     yield from plan_cases(ctx)
 
 def plan_cases(ctx):
@@ -109,7 +145,7 @@ def plan_cases(ctx):
 def judge(ctx, meta, impl, model):
     fs = []
     crash = [b[0] for b in impl if b[0].startswith(("CRASH", "TIMEOUT"))]
-    if crash and (meta["family"].endswith(".plan") or meta["family"] == "kwaj.lzh-tight-tail"):
+    if crash and (meta["family"].endswith(".plan") or meta["family"] in ("kwaj.lzh-tight-tail", "kwaj.spec")):
         return [Finding("violation", "well-formed file: implementation " + crash[0])]
     if meta["family"] == "lzss.spec":
         if crash: return [Finding("violation", "spec-encoded LZSS stream: implementation " + crash[0])]
@@ -125,14 +161,17 @@ def judge(ctx, meta, impl, model):
         return fs
     op = next((b for b in impl if b[0].startswith("open")), None)
     ex = next((C.kv(b[0]) for b in impl if b[0].startswith("extract ")), None)
-    if meta["family"].endswith(".plan") or meta["family"] == "kwaj.lzh-tight-tail":
+    if meta["family"].endswith(".plan") or meta["family"] in ("kwaj.lzh-tight-tail", "kwaj.spec"):
         if op is None or " st=0" not in op[0]:
             fs.append(Finding("violation", f"well-formed {meta['family']} refused by open(): {op[0] if op else None}"))
         else:
             hdr = meta.get("hdr") or {}
             d = C.kv(op[1]) if len(op) > 1 else {}
-            for k_plan, k_dump in (("format", "fmt"), ("fmt", "fmt"), ("length", "len"), ("comp_type", "comp"), ("comp", "comp"), ("data_offset", "dataoff"), ("dataoff", "dataoff")):
-                if k_plan in hdr and k_dump in d and str(hdr[k_plan]) != d[k_dump]:
+            for k_plan, k_dump in (("format", "fmt"), ("fmt", "fmt"), ("length", "len"), ("comp_type", "comp"), ("comp", "comp"), ("data_offset", "dataoff"), ("dataoff", "dataoff"), ("flags", "flags")):
+                if k_plan == "flags" and k_plan in hdr and k_dump in d:
+                    if int(str(hdr[k_plan]), 0) != int(d[k_dump], 0):
+                        fs.append(Finding("violation", f"header field flags: reported {d[k_dump]}, planned {hdr[k_plan]}"))
+                elif k_plan in hdr and k_dump in d and str(hdr[k_plan]) != d[k_dump]:
                     fs.append(Finding("violation", f"header field {k_dump}: reported {d[k_dump]}, planned {hdr[k_plan]}"))
             for k_plan, k_dump in (("missing", "missing"), ("filename", "name"), ("name", "name"), ("extra", "extra")):
                 if k_plan in hdr and k_dump in d:
